@@ -101,6 +101,11 @@ var consPool = []consLeaf{
 	{path: "/if[name=e1]/unit[id=1]/vlan", good: []string{"1", "4094", "100"}, bad: []string{"0", "4095"}},
 	{path: "/peer[name=n1][zone=z1]/via", good: []string{"e1", "e2"}, support: func(v string) map[string]string { return ifSupport(v) }},
 	{path: "/peer[name=n1][zone=z1]/as", good: []string{"1", "2"}},
+	{path: "/peer[name=n1][zone=z1]/via-unit", good: []string{"1", "2"}, support: func(v string) map[string]string {
+		return map[string]string{"/peer[name=n1][zone=z1]/via": "e1", "/if[name=e1]/unit[id=" + v + "]/descr": "u", "/if[name=e1]/descr": "a"}
+	}},
+	{path: "/if[name=e1]/unit[id=1]/descr", good: []string{"u"}},
+	{path: "/if[name=e2]/unit[id=1]/descr", good: []string{"u"}},
 	{path: "/cons/rng-s", good: []string{"-10", "-2", "5", "9", "-5"}, bad: []string{"-11", "0", "10", "-1", "4"}},
 	{path: "/cons/rng-u", good: []string{"1", "10", "20", "5"}, bad: []string{"0", "15", "21"}},
 	{path: "/cons/len", good: []string{"ab", "abcd"}, bad: []string{"a", "abcde"}},
